@@ -64,6 +64,16 @@ def worker(case):
         tag = desc[0]
         feature = []
     key = core.digest(text)
+    if kind == "base" and opts.get("comments") and not opts.get("rich") and busr is None:
+        # not the first file of the process: two rejected inputs came before (cut in the middle, and a reference to
+        # a cell that does not exist) - whatever a rejected parse leaves behind must not reach this one
+        for bad in (text[: len(text) // 2], text.replace("(cellRef ", "(cellRef zz_nowhere_", 1)):
+            try:
+                parse_text(bad)
+                probs.append(("rejected-input-accepted:" + tag, "a cut / dangling text was accepted"))
+            except Exception:
+                pass
+        feature.append("after-rejected-input")
     try:
         n = parse_text(text)
     except Exception as ex:
